@@ -14,7 +14,7 @@ RULE = (
     "(a) macro helper: every (type, controller) pair alone (thorough: all 502; quick: one per type + every non-range kind), generated multi-target "
     "calls of 1..16 targets, 17 targets and duplicate-module calls, name/initial given or omitted; (b) propagation: Hypothesis draws (target "
     "type+ranged controller, window, gain, quantization, curve) tuples and for every tuple the whole input axis 0..32768 is enumerated through "
-    "MultiCtl.value inside a project (1..3 targets per MultiCtl incl. one link whose mapping names no controller); (c) the same tuples x20 through "
+    "MultiCtl.value inside a project (1..3 targets per MultiCtl incl. a link whose mapping names no controller, a link that was made and removed again, and a link to a module lacking the mapped controller); (c) the same tuples x20 through "
     "convert_value directly with the arguments on_value_changed passes. distinct = tuple hash; non-trivial = window strictly inside (0,32768) or "
     "reversed, with gain != 256 or quantization < 32768, or a non-default curve"
 )
@@ -24,7 +24,7 @@ ASSUMPTIONS = [
     "generated curves are monotone non-decreasing sequences of 257 values in 0..0x8000",
 ]
 REQUIRED_LABELS = {
-    "quick": ["macro_single", "macro_multi", "macro_too_many", "macro_duplicate", "axis_normal", "axis_reversed", "unset_mapping_link", "curve_custom", "quantized", "convert_direct"],
+    "quick": ["macro_single", "macro_multi", "macro_too_many", "macro_duplicate", "axis_normal", "axis_reversed", "unset_mapping_link", "curve_custom", "quantized", "convert_direct", "freed_slot_link", "link_to_controllerless_module"],
     "thorough": ["macro_single", "macro_multi", "macro_too_many", "macro_duplicate", "axis_normal", "axis_reversed", "unset_mapping_link", "curve_custom", "quantized", "convert_direct", "compact_target"],
 }
 
@@ -212,6 +212,10 @@ def axis_case(draw):
         "quantization": draw(st.one_of(st.just(32768), vs.edge_int(0, 32768, extra=(2, 3, 7, 100, 32767)))),
         "curve": draw(curve_strategy()),
         "unset_link": draw(st.booleans()),
+        # a link that was made and removed again (freed slot in the middle of out_links, its mapping
+        # still set), and a link to a module that lacks the mapped controller (the Output module)
+        "freed_slot": draw(st.booleans()),
+        "link_to_output": draw(st.booleans()),
     }
 
 
@@ -221,6 +225,10 @@ def run_axis_case(ctx, case, stride=1):
     p = Project()
     mods = []
     mappings = []
+    ghost = None
+    if case.get("freed_slot"):
+        ghost = p.new_module(m.Amplifier, volume=5)
+        mappings.append((0, 0x8000, 1, 0, 0, 0, 0, 0))
     for t in case["targets"]:
         mods.append(p.new_module(cls_of(t["type"])))
         mappings.append((t["window"][0], t["window"][1], t["number"], 0, 0, 0, 0, 0))
@@ -228,11 +236,19 @@ def run_axis_case(ctx, case, stride=1):
     if case["unset_link"]:
         bystander = p.new_module(m.Amplifier, volume=123, bipolar_dc_offset=-77)
         mappings.append((0, 0x8000, 0, 0, 0, 0, 0, 0))
+    if case.get("link_to_output"):
+        mappings.append((0, 0x8000, 2, 0, 0, 0, 0, 0))
     kw = dict(gain=case["gain"], quantization=case["quantization"], mappings=mappings)
     if case["curve"] is not None:
         kw["curve"] = list(case["curve"])
     mc = p.new_module(m.MultiCtl, **kw)
-    mc >> (mods + ([bystander] if bystander else []))
+    mc >> (([ghost] if ghost else []) + mods + ([bystander] if bystander else []) + ([p.output] if case.get("link_to_output") else []))
+    if ghost is not None:
+        mc >> ~ghost
+    # whatever module happens to be last in the project must not receive anything it is not linked for
+    last = p.new_module(m.Amplifier, volume=77, balance=-3)
+    uninvolved = [x for x in (ghost, last) if x is not None]
+    uninvolved_before = [dict(x.controller_values) for x in uninvolved]
     by_snapshot = dict(bystander.controller_values) if bystander else None
     prev = [None] * len(mods)
     ctlnames = [t["ctl"] for t in case["targets"]]
@@ -251,6 +267,9 @@ def run_axis_case(ctx, case, stride=1):
                 if (a <= b and got < pv) or (a > b and got > pv):
                     raise PropertyViolation("C20.propagate.monotone", "input %d -> %d delivers %r after %r to %s.%s (window %r)" % (v - stride, v, got, pv, t["type"], t["ctl"], t["window"]))
             prev[i] = got
+    for x, before in zip(uninvolved, uninvolved_before):
+        if dict(x.controller_values) != before:
+            raise PropertyViolation("C20.propagate.unlinked_module_changed", "a module that is not (or no longer) linked to the MultiCtl changed: %r -> %r" % (before, dict(x.controller_values)))
     if bystander is not None and dict(bystander.controller_values) != by_snapshot:
         raise PropertyViolation("C20.propagate.unset_mapping", "link whose mapping names no controller changed its target: %r -> %r" % (by_snapshot, dict(bystander.controller_values)))
     labels = set()
@@ -262,6 +281,10 @@ def run_axis_case(ctx, case, stride=1):
             labels.add("negative_min_target")
     if case["unset_link"]:
         labels.add("unset_mapping_link")
+    if case.get("freed_slot"):
+        labels.add("freed_slot_link")
+    if case.get("link_to_output"):
+        labels.add("link_to_controllerless_module")
     if case["curve"] is not None:
         labels.add("curve_custom")
     if case["quantization"] < 32768:
